@@ -2,7 +2,7 @@
 
 package main
 
-// Reflection walk used by the multi-run suite (C08) to establish `ClonePrivate` on the real
+// Reflection walk used by the multi-run suite (C08) to sample the hypothesis `ClonePrivate` on the real
 // objects: every pointer / map / slice backing array / channel reachable from a value is
 // collected with the path of (unexported) fields that leads to it.  reflect allows Field, Elem,
 // Index, MapRange, Len, IsNil and Pointer on values reached through unexported fields (only
@@ -13,6 +13,8 @@ package main
 
 import (
 	"fmt"
+	"hash/fnv"
+	"math"
 	"reflect"
 	"sort"
 	"strings"
@@ -34,6 +36,7 @@ type walkNode struct {
 	depth  int
 	slen   int // slices: length and capacity
 	scap   int
+	val    reflect.Value // the pointer / map / slice / chan value itself (content can be re-read later)
 }
 
 type walkGraph struct {
@@ -60,7 +63,7 @@ func walkFrom(root interface{}) *walkGraph {
 		if _, seen := g.nodes[addr]; seen {
 			return false
 		}
-		g.nodes[addr] = &walkNode{addr: addr, kind: kind, typ: v.Type().String(), path: it.path, parent: it.parent, depth: it.depth}
+		g.nodes[addr] = &walkNode{addr: addr, kind: kind, typ: v.Type().String(), path: it.path, parent: it.parent, depth: it.depth, val: v}
 		g.order = append(g.order, addr)
 		return true
 	}
@@ -186,4 +189,180 @@ func (g *walkGraph) findByType(types ...string) *walkNode {
 		}
 	}
 	return nil
+}
+
+// ---------------------------------------------------------------- content of a node
+//
+// The SHALLOW content of a node is everything stored in the object itself: scalars by value, strings by
+// content, and for every pointer / map / slice header / channel / function / interface it holds the
+// IDENTITY it refers to (not what is stored there: that is the content of another node).  Re-reading
+// the content of the same node later and comparing leaf by leaf tells whether, and where, the object
+// was written in between.  Everything is read with the reflect operations that are allowed on values
+// reached through unexported fields.
+
+type nodeContent map[string]string
+
+func hashStr(s string) string {
+	if len(s) <= 48 {
+		return fmt.Sprintf("%q", s)
+	}
+	h := fnv.New64a()
+	h.Write([]byte(s))
+	return fmt.Sprintf("str#%d:%016x", len(s), h.Sum64())
+}
+
+func shallowInto(v reflect.Value, path string, out nodeContent) {
+	if !v.IsValid() {
+		out[path] = "<invalid>"
+		return
+	}
+	switch v.Kind() {
+	case reflect.Bool:
+		out[path] = fmt.Sprint(v.Bool())
+	case reflect.Int, reflect.Int8, reflect.Int16, reflect.Int32, reflect.Int64:
+		out[path] = fmt.Sprint(v.Int())
+	case reflect.Uint, reflect.Uint8, reflect.Uint16, reflect.Uint32, reflect.Uint64, reflect.Uintptr:
+		out[path] = fmt.Sprint(v.Uint())
+	case reflect.Float32, reflect.Float64:
+		out[path] = fmt.Sprintf("%016x", math.Float64bits(v.Float()))
+	case reflect.Complex64, reflect.Complex128:
+		c := v.Complex()
+		out[path] = fmt.Sprintf("%016x,%016x", math.Float64bits(real(c)), math.Float64bits(imag(c)))
+	case reflect.String:
+		out[path] = hashStr(v.String())
+	case reflect.Ptr, reflect.Map, reflect.Chan, reflect.Func, reflect.UnsafePointer:
+		if v.Kind() != reflect.UnsafePointer && v.IsNil() {
+			out[path] = "nil"
+		} else {
+			out[path] = fmt.Sprintf("%s@%x", v.Kind(), v.Pointer())
+		}
+	case reflect.Slice:
+		if v.IsNil() {
+			out[path] = "nil"
+		} else {
+			out[path] = fmt.Sprintf("slice@%x len=%d cap=%d", v.Pointer(), v.Len(), v.Cap())
+		}
+	case reflect.Interface:
+		if v.IsNil() {
+			out[path] = "nil"
+		} else {
+			out[path+"(type)"] = v.Elem().Type().String()
+			shallowInto(v.Elem(), path, out)
+		}
+	case reflect.Struct:
+		t := v.Type()
+		if v.NumField() == 0 {
+			out[path] = "{}"
+		}
+		for i := 0; i < v.NumField(); i++ {
+			shallowInto(v.Field(i), path+"."+t.Field(i).Name, out)
+		}
+	case reflect.Array:
+		for i := 0; i < v.Len(); i++ {
+			shallowInto(v.Index(i), fmt.Sprintf("%s[%d]", path, i), out)
+		}
+	default:
+		out[path] = "<" + v.Kind().String() + ">"
+	}
+}
+
+func keyString(k reflect.Value) string {
+	c := nodeContent{}
+	shallowInto(k, "", c)
+	var parts []string
+	for p, val := range c {
+		parts = append(parts, p+"="+val)
+	}
+	sort.Strings(parts)
+	return strings.Join(parts, ",")
+}
+
+// contentOf reads the shallow content of a node NOW (through the value recorded when the graph was walked).
+func contentOf(n *walkNode) (c nodeContent) {
+	c = nodeContent{}
+	defer func() {
+		if r := recover(); r != nil {
+			c["<unreadable>"] = fmt.Sprint(r)
+		}
+	}()
+	v := n.val
+	switch n.kind {
+	case "ptr":
+		shallowInto(v.Elem(), "", c)
+	case "map":
+		c["<len>"] = fmt.Sprint(v.Len())
+		iter := v.MapRange()
+		for iter.Next() {
+			shallowInto(iter.Value(), "["+keyString(iter.Key())+"]", c)
+		}
+	case "slice":
+		// the whole backing array the header recorded at walk time gives access to (elements beyond
+		// len too: an append by somebody who shares the array lands there)
+		full := v
+		if v.Cap() > v.Len() {
+			full = v.Slice(0, v.Cap())
+		}
+		for i := 0; i < full.Len(); i++ {
+			shallowInto(full.Index(i), fmt.Sprintf("[%d]", i), c)
+		}
+	case "chan":
+		c["<len>"] = fmt.Sprint(v.Len())
+	}
+	return c
+}
+
+type graphSnapshot map[nodeKey]nodeContent
+
+func snapshotGraph(g *walkGraph) graphSnapshot {
+	s := graphSnapshot{}
+	for k, n := range g.nodes {
+		s[k] = contentOf(n)
+	}
+	return s
+}
+
+// writtenNode is a node whose content differs between two snapshots, with the first differing leaf.
+type writtenNode struct {
+	Path   string `json:"path"`
+	Type   string `json:"type"`
+	Kind   string `json:"kind"`
+	Leaf   string `json:"leaf"`
+	Before string `json:"before"`
+	After  string `json:"after"`
+	Leaves int    `json:"leaves"`
+	key    nodeKey
+}
+
+func diffSnapshots(g *walkGraph, before, after graphSnapshot) []writtenNode {
+	var out []writtenNode
+	for _, k := range g.order {
+		b, a := before[k], after[k]
+		var leaves []string
+		for l, bv := range b {
+			if av, ok := a[l]; !ok || av != bv {
+				leaves = append(leaves, l)
+			}
+		}
+		for l := range a {
+			if _, ok := b[l]; !ok {
+				leaves = append(leaves, l)
+			}
+		}
+		if len(leaves) == 0 {
+			continue
+		}
+		sort.Strings(leaves)
+		n := g.nodes[k]
+		bv, ok1 := b[leaves[0]]
+		av, ok2 := a[leaves[0]]
+		if !ok1 {
+			bv = "<absent>"
+		}
+		if !ok2 {
+			av = "<absent>"
+		}
+		out = append(out, writtenNode{Path: n.path, Type: n.typ, Kind: n.kind, Leaf: leaves[0], Before: bv, After: av, Leaves: len(leaves), key: k})
+	}
+	sort.Slice(out, func(i, j int) bool { return out[i].Path < out[j].Path })
+	return out
 }
